@@ -47,12 +47,12 @@ checks = [
         "the trailer replaced by eight values derived from the body (plain CRC, half-applied mask, other byte order, ...), artifacts constructed so that their checksum is a boundary value or one byte away from the plain CRC; artifacts from Default / from_iter entry points; builds whose history contains refused calls and bulk calls that end early; every deep corruption also applied in place to a buffer that verified a moment ago (incl. artifacts of 250-500 KiB); open-then-verify must never return Ok on a corrupted artifact and nothing may panic.",
         TB_A, "deterministic simulation with fault injection: at-rest/in-flight byte corruption enumeration + sink-chunking schedules against an independent CRC-32C", "DESIGN.md §5 C08"),
     chk("C11", "fault_enumeration",
-        "Hard-fault enumeration: for each workload and layering (direct / short writes / BufWriter) a dry run measures the sink calls, then every sink call index (writes and flushes) fails with each of 8 ErrorKinds or Ok(0) (flushes also with Interrupted), transient and sticky, the error built in one of four representations per run (text payload, bare kind, errno, a payload that is itself an fst::Error); six multi-MiB builds with one fault far into the output; a fifth of the workloads have keys that are long valid UTF-8 text (multi-byte characters across offsets 16..256), for error paths that format or cut the key of the failing call. "
+        "Hard-fault enumeration: for each workload and layering (direct / short writes / BufWriter) a dry run measures the sink calls, then every sink call index (writes and flushes) fails with each of 8 ErrorKinds or Ok(0) (flushes also with Interrupted), transient and sticky, the error built in one of four representations per run (text payload, bare kind, errno, a payload that is itself an fst::Error); six multi-MiB builds with one fault far into the output and four large set builds in which the first write of 3..7 bytes (an address more than 64 KiB back) after a drawn call index returns Ok(0); a fifth of the workloads have keys that are long valid UTF-8 text (multi-byte characters across offsets 16..256), for error paths that format or cut the key of the failing call. "
         "Oracles: no panic; the public call in progress returns Err(Io(kind)) (WriteZero for Ok(0)); earlier calls unchanged; finish returns Ok only if the sink saw a successful flush after its last write and holds exactly the reference bytes.",
         TB_A + " The simulated caller stops at the first Err(Io).", "deterministic simulation with fault injection: enumeration of the failing sink call x error kind x stickiness x layering", "DESIGN.md §5 C11"),
     chk("C13", "exploration",
         "Streaming builds of 1e4..3e6 (thorough 3e7) keys with bounded fan-out and key length and almost no node sharing (fixed-length keys, prefix pairs, leaf fans of distinct 33..64-way nodes, strictly decreasing values), under a counting global allocator, for sets and maps, several cache geometries and sink acceptance shapes; "
-        "plus bulk calls (one extend_iter / extend_stream over 4e5 items), runs of 150 000 repeats of one key, one uninterrupted run of 1e5 refused inserts half way, sectioned streams (a vocabulary of tails found in the cache again and again, then displaced), keys of 65..1000 bytes, single builders that emit > 64 MiB and > 110 MiB, a builder handed back and forth between two long-lived threads (heap summed over both), builds that begin with the empty key and/or a bulk call that returns an error half-way, and raw builders on which insert (with an output) and add (without) are mixed (one valued header row then adds only; a valued first half); live requested heap is checked against a bound computed from (measured constructor allocation, geometry, fan-out, key length) at every 1000th insert; growth over the last nine tenths is reported. Builder errors in these runs are recorded, not judged (C06/C01/C11 judge them).",
+        "plus bulk calls (one extend_iter / extend_stream over 4e5 items), runs of 150 000 repeats of one key, one uninterrupted run of 1e5 refused inserts half way, sectioned streams (a vocabulary of tails found in the cache again and again, then displaced), keys of 65..1000 bytes, single builders that emit > 64 MiB and > 110 MiB, a builder handed back and forth between two long-lived threads (heap summed over both), builds that begin with the empty key and/or a bulk call that returns an error half-way, raw builders on which insert (with an output) and add (without) are mixed (one valued header row then adds only; a valued first half), and keys far longer than all earlier ones arriving late; live requested heap is checked against a bound computed from (measured constructor allocation, geometry, fan-out, key length) at every 1000th insert; growth over the last nine tenths is reported. Builder errors in these runs are recorded, not judged (C06/C01/C11 judge them).",
         "Trusted: the counting allocator (requested bytes of the building thread) and the arithmetic bound derived from struct sizes on a 64-bit target. Asymptotic claim checked at finitely many scales.",
         "deterministic simulation: allocator seam (counting global allocator) with invariant checkpoints during streamed builds", "DESIGN.md §5 C13"),
     chk("C14", "exploration",
@@ -61,17 +61,17 @@ checks = [
         "Trusted: the counting allocator; per-item allocate-and-free is not judged (the property is about heap held).",
         "deterministic simulation: allocator seam (counting global allocator) around traversals at two scales", "DESIGN.md §5 C14"),
     chk("C15", "exploration",
-        "Worlds of 2-6 builder tasks that receive one accepted sequence through different front ends (incl. from_iter/memory entry points and the union-of-parts merge recipe), call groupings, sink schedules and buffer layers, plus disturber tasks (they die with an injected I/O error mid-output, are dropped without finish, or their writer panics inside write()), same-sequence tasks whose writer re-enters the library inside write() or whose key source panics inside a bulk call, interleaved call by call by a seeded scheduler; the empty sequence through every entry point incl. Map/Set::default(); the same sequence before and after 255 .. 65 536 other builder objects in one thread; "
+        "Worlds of 2-6 builder tasks that receive one accepted sequence through different front ends (incl. from_iter/memory entry points and the union-of-parts merge recipe), call groupings, sink schedules and buffer layers, plus disturber tasks (they die with an injected I/O error mid-output, are dropped without finish, or their writer panics inside write()), same-sequence tasks whose writer re-enters the library inside write() or whose key source panics inside a bulk call, set tasks in which the key that ended one call is repeated at the head of the next, interleaved call by call by a seeded scheduler; the empty sequence through every entry point incl. Map/Set::default(); the same sequence before and after 255 .. 65 536 other builder objects in one thread; "
         "all outputs must be byte-identical. Large in-memory builds (3e5 keys, cache rows overflow) are also fingerprinted by both build profiles of the simulator (with / without debug assertions and overflow checks) and must agree. The same run indices are re-executed in separate processes at several worker counts and per-index digests compared (processes clause). Threads clause: Engine C compiles an instrumented copy of the library (std sync primitives mapped to shuttle) and lets 2-4 simulated threads build the same sequence through different entry points as the first thing in a fresh process, then warm, under seeded schedules.",
         TB_A + " Interleaving is at public-call granularity (the library has no shared mutable state).",
         "deterministic simulation: seeded call-level scheduler over multiple builder tasks + cross-process re-execution", "DESIGN.md §5 C15"),
     chk("C20", "fault_enumeration",
         "Crash-restart simulation: a build is cut at every sink event (durable prefix, torn in-flight write of several lengths, lost BufWriter buffer); survivors, corrupted artifacts, boundary header/footer strings (root address/len/version boundary values, lengths 0..64), bytes whose checksum was recomputed over garbage, and random strings are reopened "
-        "through Fst/Map/Set::new over &[u8], Vec and Cow, then every metadata accessor, verify and map_data (also with a closure that returns other bytes) run under catch_unwind with overflow checks on. Also 464 openable files of round sizes (2^k+d, k=12..23; m MiB+d) with wrong and recomputed checksum, one artifact above 1 MiB with every footer field at boundary values, node-shaped garbage; files of 4 MiB and more are also opened and verified in child processes on a 256 KiB-stack thread, with the address space capped (failing allocation / thread creation as the injected fault), and by four threads sharing one opened Fst. The 'no unsafe code' clause is a compile of the library with -F unsafe_code in both profiles (debug and --release, with the levenshtein feature) plus a token scan of src/**/*.rs for the keyword (all cfg branches and macro bodies); a lint, reported as such.",
+        "through Fst/Map/Set::new over &[u8], Vec and Cow, then every metadata accessor, verify and map_data (also with a closure that returns other bytes) run under catch_unwind with overflow checks on. Also 464 openable files of round sizes (2^k+d, k=12..23; m MiB+d) with wrong and recomputed checksum, one artifact above 1 MiB with every footer field at boundary values, node-shaped garbage; files of 4 MiB and more are also opened and verified in child processes on a 256 KiB-stack thread, with the address space capped (failing allocation / thread creation as the injected fault), and by four threads sharing one opened Fst; if the library's sources read environment variables, one openable file in 64 is also opened and verified in child processes with each such variable set to hostile values (none on the shipped tree). The 'no unsafe code' clause is a compile of the library with -F unsafe_code in both profiles (debug and --release, with the levenshtein feature) plus a token scan of src/**/*.rs for the keyword (all cfg branches and macro bodies); a lint, reported as such.",
         TB_A + " Queries on garbage are deliberately not called (the property allows them to panic).",
         "deterministic simulation with fault injection: crash at every sink event + at-rest corruption, restart through the real open/verify path; plus a compile-time unsafe lint", "DESIGN.md §5 C20"),
     chk("C19", "exploration",
-        "The real fst-bin map/set commands (argument parsing, Merger, batcher, Sorters, KvBatch, UnionBatch, temp files, mmap) run under a seeded scheduler that owns every thread spawn and channel operation; inputs (incl. the empty key, files without trailing newline, CR at EOF, empty files, the same file listed twice, FIFOs instead of regular files, CRLF line ends, keys with NUL / control bytes / invalid UTF-8 (set) or multi-byte UTF-8 (map), lines longer than 8 KiB and 64 KiB, set files whose first line begins with a UTF-8/UTF-16 byte order mark, a comment sign, a quote or a gzip magic number, values with leading zeros and above 2^53, a stale longer file at the output path) x --keep-tmp-dir x temporary directory on another file system x batch size x fd limit x threads x merge mode x schedule are sampled; a fault-injecting configuration starves file descriptors from a chosen batch on (the command may fail, it must not report success with a wrong result). "
+        "The real fst-bin map/set commands (argument parsing, Merger, batcher, Sorters, KvBatch, UnionBatch, temp files, mmap) run under a seeded scheduler that owns every thread spawn and channel operation; inputs (incl. the empty key, files without trailing newline, CR at EOF, empty files, the same file listed twice, FIFOs instead of regular files, CRLF line ends, keys with NUL / control bytes / invalid UTF-8 (set) or multi-byte UTF-8 (map), lines longer than 8 KiB and 64 KiB, set files whose first line begins with a UTF-8/UTF-16 byte order mark, a comment sign, a quote or a gzip magic number, keys made of punctuation (# % ; | ' ! ~), values with leading zeros and above 2^53, a stale longer file at the output path) x --keep-tmp-dir x temporary directory on another file system x batch size x fd limit x threads x merge mode x schedule are sampled; a fault-injecting configuration starves file descriptors from a chosen batch on (the command may fail, it must not report success with a wrong result). "
         "Oracles: command returns Ok, output verifies, content equals a multiset-merge model, bytes equal a sorted library build when keys do not repeat, and all outputs for one input and mode are byte-identical across configurations and schedules; no deadlock, bounded steps.",
         "Trusted: shuttle 0.9.3 as coroutine runtime; our bounded-channel shim standing in for crossbeam-channel (rendezvous, capacity 1, disconnect semantics); the multiset-merge model. Real: fst-bin app.rs, cmd/map.rs, cmd/set.rs, merge.rs, util.rs, the fst library, the filesystem (tmpfs), memmap2.",
         "deterministic simulation: seeded thread scheduler (shuttle runtime, own Scheduler) over the real CLI merge pipeline x configuration knobs", "DESIGN.md §5 C19", engine="binsim"),
